@@ -245,7 +245,7 @@ let handle (line : string) : unit =
      let sched = L.map action_ (field "sched" f) in
      let r = run_case p sched in
      let bs = L.map snd (L.map node_ (field "nodes" f)) in
-     let (is_plain, orders_valid) = plain_hyps_case ds bs (L.map kv_ (field "input" f)) p in
+     let (is_plain, (orders_valid, orders_by_depth)) = plain_hyps_case ds bs (L.map kv_ (field "input" f)) p in
      pr "{\"outcome\":"; pmain r.r_main;
      pr ",\"deadlock\":"; pbool r.r_deadlock;
      pr ",\"trace\":"; plist pobs r.r_trace;
@@ -258,6 +258,7 @@ let handle (line : string) : unit =
      pr ",\"fuel\":"; pbool r.r_fuel;
      pr ",\"plain\":"; pbool is_plain;
      pr ",\"orders_valid\":"; pbool orders_valid;
+     pr ",\"orders_by_depth\":"; pbool orders_by_depth;
      pr "}"
    | S (A "modelcheck" :: f) ->
      let (_, p) = prog_of f in
